@@ -328,7 +328,8 @@ def gen_scenario(root, profile=None):
         if kind == "hb_hypertune":
             sched["gp_model"] = "gp_independent"
         elif kind in ("hb_stopping_bo", "hb_promotion_bo", "sync_hb_bo"):
-            sched["gp_model"] = r.choice(["gp_multitask", "gp_multitask", "gp_independent", "gp_expdecay"])
+            # (the learning-curve models gp_expdecay / gp_issm are not generated: see DESIGN 7.3)
+            sched["gp_model"] = r.choice(["gp_multitask", "gp_multitask", "gp_independent", "gp_multitask"])
             if kind == "sync_hb_bo" and sched["gp_model"] == "gp_expdecay":
                 sched["gp_model"] = "gp_multitask"
             if sched["gp_model"] == "gp_expdecay":
